@@ -34,7 +34,8 @@ RULE = (
     "ElementTree ParseError -> MosInvalidXML; metamorphic: permuting root children, pretty-printing "
     "and nested decoys never change the outcome.  Non-trivial = not a canonical suite-style file: "
     "reordered/extra siblings, an EA shape, filter=error, bytes/file source, or damaged text."
-    " Also: str beginning with U+FEFF or carrying a foreign encoding declaration; envelopes without messageID / mosID / ncsID; relative file names ('~$doc.mos.xml'); DOCTYPE declarations; documents declaring an encoding the parser cannot decode (the class, or MosInvalidXML - nothing else may escape).")
+    " Also: str beginning with U+FEFF or carrying a foreign encoding declaration; envelopes without messageID / mosID / ncsID; relative file names ('~$doc.mos.xml'); DOCTYPE declarations; documents declaring an encoding the parser cannot decode (the class, or MosInvalidXML - nothing else may escape)."
+    ' Round 11: every shape classified right after ANOTHER document with the same messageID went through MosFile.from_string / MosReader.from_string / MosCollection.from_strings, and from a path just rewritten with another message.')
 ASSUMPTIONS = [
     'at most one recognised message element is a direct child of the root (two would be ambiguous)',
     'a message element with no children at all (not schema-valid) may classify as its class or as UnknownMosFileType',
